@@ -283,7 +283,7 @@ func init() {
 	})
 	sim.Register(&sim.Check{
 		ID: "C03", Title: "Each account's transactions apply once, in strict nonce order", World: "ledger",
-		Gen:   Scenario{Weights: map[string]int{"send": 12, "call": 6, "pour": 2, "data": 1, "replay": 6, "block": 4, "clock": 0}, Lo: 20, Hi: 120, Mixed: true}.Gen,
+		Gen:   withReadFault(Scenario{Weights: map[string]int{"send": 12, "call": 6, "pour": 2, "data": 1, "replay": 6, "block": 4, "clock": 0}, Lo: 20, Hi: 120, Mixed: true}.Gen),
 		Exec:  baseExec("C03", func(w *World) []Observer { return []Observer{NewOracleC03()} }),
 		Quick: sim.Budget{Runs: 320, WallS: 90}, Thorough: sim.Budget{Runs: 20000, WallS: 1500},
 		LevelText: "seeded search over submission histories with nonces drawn from {expected, ±1, 0, negative, far future}, duplicates and byte-identical replays of applied transactions; per-account reference counter compared with the nonce stored in the real trie",
